@@ -1,6 +1,7 @@
 SPECIFICATION Spec
 INVARIANT InitialGoals
 INVARIANT GoalReachable
+INVARIANT GoalReachableStructural
 INVARIANT Disjoint
 INVARIANT NoGoalLost
 INVARIANT CoveredGrows
